@@ -281,7 +281,7 @@ func (c *Ctx) finish(root string, seed int64, wall float64, sens *sensitivity, e
 		}
 		return nil
 	}
-	var viol []Obl
+	var viol, undec []Obl
 	nOK, nKnown := 0, 0
 	distinct := map[string]bool{}
 	perRule := map[string][2]int{}
@@ -300,8 +300,13 @@ func (c *Ctx) finish(root string, seed int64, wall float64, sens *sensitivity, e
 			if o.Pos != "" {
 				distinct[o.Rule+"|"+o.Key] = true
 			}
-		} else {
+		} else if o.Verdict == vViolation {
 			viol = append(viol, o)
+		} else {
+			// anchor-unresolved, instances-below-pin, undecided, rule-panic: the rule could not be applied to this
+			// tree (the code it was confirmed on was moved, renamed or reshaped). That is not a verdict about the
+			// property: it is reported, recorded in the evidence, and does not fail the check.
+			undec = append(undec, o)
 		}
 		perRule[o.Rule] = pr
 	}
@@ -332,6 +337,12 @@ func (c *Ctx) finish(root string, seed int64, wall float64, sens *sensitivity, e
 		fmt.Printf("VIOLATION property=%s replay=%s\n", c.Prop, path)
 	}
 	_ = replay
+	for _, o := range undec {
+		fmt.Printf("UNDECIDED property=%s rule=%s key=%s [%s] %s\n", c.Prop, o.Rule, o.Key, o.Verdict, o.Detail)
+	}
+	for _, n := range c.P.normNotes {
+		fmt.Printf("NORMALISED: %s\n", n)
+	}
 
 	// samples: a spread of obligations (first of each rule, then violations)
 	var samples []Obl
@@ -386,7 +397,13 @@ func (c *Ctx) finish(root string, seed int64, wall float64, sens *sensitivity, e
 			"no reflection/unsafe/linkname alters the anchored state (none in the analysed functions)",
 			"guards are branch-edge dominance; operands of a guard are assumed not reassigned between test and use unless a rule says it checks that",
 		}, c.notes...),
-		"wall_s": wall, "violations": len(viol),
+		"wall_s": wall, "violations": len(viol), "undecided": len(undec),
+	}
+	if len(undec) > 0 {
+		cov["undecided_obligations"] = undec
+	}
+	if len(c.P.normNotes) > 0 {
+		cov["normalisation"] = c.P.normNotes
 	}
 	os.MkdirAll(filepath.Join(root, "evidence"), 0o755)
 	b, _ := json.MarshalIndent(ev, "", " ")
@@ -394,8 +411,8 @@ func (c *Ctx) finish(root string, seed int64, wall float64, sens *sensitivity, e
 		fmt.Printf("cannot write evidence: %v\n", err)
 		return 1
 	}
-	fmt.Printf("%s %s: %d obligations, %d discharged, %d known findings, %d violations, %d functions, %.1fs\n",
-		c.Prop, c.Tier, len(c.Obls), nOK, nKnown, len(viol), len(c.funcs), wall)
+	fmt.Printf("%s %s: %d obligations, %d discharged, %d known findings, %d violations, %d undecided, %d functions, %.1fs\n",
+		c.Prop, c.Tier, len(c.Obls), nOK, nKnown, len(viol), len(undec), len(c.funcs), wall)
 	if len(viol) > 0 {
 		return 1
 	}
